@@ -929,9 +929,20 @@ def run(
         msg = "No output specified: either observables or get_state must be set."
         raise ValueError(msg)
 
-    if isinstance(sim_params, (StrongSimParams, WeakSimParams)):
-        assert isinstance(operator, QuantumCircuit)
-        _run_circuit(initial_state, operator, sim_params, noise_model, parallel=parallel)
-    elif isinstance(sim_params, AnalogSimParams):
-        assert isinstance(operator, MPO)
-        _run_analog(initial_state, operator, sim_params, noise_model, parallel=parallel)
+    # The engines temporarily rewrite num_traj / shots on the (reusable) parameter object and restore them when they finish.
+    # A run that fails in between (unsupported gate, worker error, ...) must leave the caller's request in place as well.
+    requested_num_traj = getattr(sim_params, "num_traj", None)
+    requested_shots = getattr(sim_params, "shots", None)
+    try:
+        if isinstance(sim_params, (StrongSimParams, WeakSimParams)):
+            assert isinstance(operator, QuantumCircuit)
+            _run_circuit(initial_state, operator, sim_params, noise_model, parallel=parallel)
+        elif isinstance(sim_params, AnalogSimParams):
+            assert isinstance(operator, MPO)
+            _run_analog(initial_state, operator, sim_params, noise_model, parallel=parallel)
+    except BaseException:
+        if requested_num_traj is not None:
+            sim_params.num_traj = requested_num_traj
+        if requested_shots is not None:
+            sim_params.shots = requested_shots
+        raise
